@@ -26,7 +26,8 @@
 From Coq Require Import List Bool NArith ZArith.
 Import ListNotations.
 From Ont Require Import Lib.Bytes Lib.U64 Model.KV Model.NeoInt Proofs.KV Proofs.NeoInt
-  Gen.FeeConsts Gen.FeeFormulas Model.Fee Model.FeeSpec Proofs.Fee.
+  Gen.FeeConsts Gen.FeeFormulas Gen.FeeCommitSites Model.Fee Model.FeeSpec Proofs.Fee.
+From Coq Require Import String.
 Local Open Scope N_scope.
 
 (** (1) failed_tx_only_fee — the property, for every environment (height, tune height, gas table),
@@ -162,6 +163,42 @@ Proof.
   intros tx s g fb tb W. apply cost_invalid_pays. apply sorted_block_sorted, wf_state_sorted; exact W.
 Qed.
 Print Assumptions c05_charge_collects.
+
+(** (9) Source tie for the modelling assumption "an execution writes only into the transaction
+    cache; the handler alone commits it". Gen/FeeCommitSites.v lists (go/ast, every run) every call
+    of Commit / CommitTo / BatchCommit / CommitToCacheDB in the code that runs during an execution
+    (native contracts, NeoVM / WASM / EVM services and interpreters, the smart-contract runtime:
+    176 files) and in the handlers and cache layers around it.
+    - During an execution the only admissible call is StateDB.CommitToCacheDB, which moves the EVM
+      journal into the transaction's CacheDB and stays there. Any Commit / CommitTo / BatchCommit
+      in that code (e.g. StateDB.Commit, which also flushes the whole transaction cache into the
+      block overlay) would survive a later failure of the same transaction: the theorem below then
+      no longer checks.
+    - The handler-level sites are pinned: HandleDeployTransaction x2 ([handle_deploy]: fee commit,
+      final commit), HandleInvokeTransaction (success commit of [exec_part]), costInvalidGas
+      ([cost_invalid]); applyTransaction is the EIP155 transaction handler (transaction level,
+      outside the property's quantifier); StateDB.Commit is the definition of the flushing
+      primitive itself (CommitToCacheDB then CacheDB.Commit) and must have no caller in the
+      execution list; vm/evm/runtime is the stand-alone EVM runtime, not linked by the ledger. *)
+Definition stays_in_tx_cache (s : String.string * String.string * String.string * String.string) : bool :=
+  String.eqb (snd (fst s)) "CommitToCacheDB"%string.
+
+Theorem c05_no_commit_during_execution : forallb stays_in_tx_cache commit_sites_exec = true.
+Proof. reflexivity. Qed.
+Print Assumptions c05_no_commit_during_execution.
+
+Theorem c05_handler_commit_sites :
+  map (fun s : String.string * String.string * String.string * String.string => fst s) commit_sites_handler =
+  [("core/store/ledgerstore/tx_handler.go", "HandleDeployTransaction", "Commit");
+   ("core/store/ledgerstore/tx_handler.go", "HandleDeployTransaction", "Commit");
+   ("core/store/ledgerstore/tx_handler.go", "HandleInvokeTransaction", "Commit");
+   ("core/store/ledgerstore/tx_handler.go", "costInvalidGas", "Commit");
+   ("smartcontract/service/evm/state_processor.go", "applyTransaction", "Commit");
+   ("smartcontract/storage/statedb.go", "Commit", "CommitToCacheDB");
+   ("smartcontract/storage/statedb.go", "Commit", "Commit");
+   ("vm/evm/runtime/contract.go", "Call", "Commit")]%string.
+Proof. reflexivity. Qed.
+Print Assumptions c05_handler_commit_sites.
 
 (** * Concrete states *)
 
